@@ -18,6 +18,7 @@ Opaque == [k |-> "O", n |-> "opaque", a |-> <<>>]
 \* expected result of each operation, as a function of the results so far
 Expected(CT, results, o) ==
   CASE o.op = "new"    -> Cls(o.c, o.args)
+    [] o.op = "given"  -> o.args[1]          \* (EV) a term the generator handed to an operation
     [] o.op = "self"   -> SelfType(CT, o.c)
     [] o.op = "renew"  -> Cls(results[o.r].n, o.args)
     [] o.op = "subst"  -> Subst(results[o.r], o.sigma)
@@ -28,9 +29,12 @@ Expected(CT, results, o) ==
 \* postconditions
 ResultOK(CT, results, o, res) == LET e == Expected(CT, results, o) IN e = Opaque \/ res = e
 \* C07: supertypes of a variable-free instantiation
-SupersOK(CT, results, o, resSupers) ==
+\* (lenient = EV against the finished program's table: a type made while its class was being built carries fewer supertypes)
+SupersOK(CT, results, o, resSupers, lenient) ==
   LET e == Expected(CT, results, o) IN
-  (e # Opaque /\ e.k = "C" /\ Ground(e)) => resSupers = SupersTextual(CT, e)
+  (e # Opaque /\ e.k = "C" /\ Ground(e) /\ o.op # "given") =>
+     IF lenient THEN (e.n \in DOMAIN CT /\ Len(CT[e.n].tp) = Len(e.a)) => resSupers \subseteq SupersTextual(CT, e)
+     ELSE resSupers = SupersTextual(CT, e)
 \* substituting with the empty map returns an equal type; ground images for all variables leave no variable
 SubstLaws(results, o, res) ==
   o.op = "subst" => /\ (DOMAIN o.sigma = {} => res = results[o.r])
